@@ -13,4 +13,5 @@ bin/simgen -repo /repo -out /verif/build/overlay-warm
 go1.26.8 build -race -gcflags='github.com/TheManticoreProject/Manticore/...=-l' -overlay build/overlay-warm/overlay.json -o build/worker-warm-race ./harness/worker
 go1.26.8 build -overlay build/overlay-warm/overlay.json -o build/worker-warm ./harness/worker
 rm -rf build/worker-warm-race build/worker-warm build/overlay-warm
+./check selftest
 echo "setup ok"
